@@ -64,7 +64,9 @@ def applyMods (r : Regs) : Mods → Regs
 scan order (most specific first).  Declarative: no cache, no threads, no history. -/
 def scan (r : Regs) (ss : List Slot) : List View := ss.filterMap r
 
-/-- a cache dict: association list with distinct keys -/
+/-- a cache dict: association list with distinct keys.  Entries are VALUES: no two entries share structure, so the
+model cannot alias cached lists; that the implementation does not either is checked on the implementation
+(`Gen.C15.cachedValuesImmutable`, and the harness's at-rest comparison of every entry with a cold scan). -/
 abbrev Dict := List (Key × List View)
 
 def Dict.get (d : Dict) (k : Key) : Option (List View) := List.lookup k d
